@@ -296,7 +296,33 @@ def check(base_idx, pairs, twice=False, ctx=None):
                 ctx.count("accepted_transitive")
         if fails:
             return fails
+        if rnd == 0:
+            first_input = conv
         conv = res
+    # the same *input* object used for an independent second call must answer as a fresh equal one does (the first call may
+    # have introduced or handed over names; none of that belongs to the input)
+    if res is not None and base_idx != WIDE:
+        known = sorted(model_of(first_input).all_prefixes())
+        news = [v for v in remapping.values() if v not in known]
+        probes = []
+        if news and len(known) >= 2:
+            probes.append({known[-1]: news[0]})          # another record asks for the name the first call gave away
+            probes.append({news[0]: "zq"})               # a name the first call introduced is unknown to the input
+        probes.append({k: "zq" for k in list(remapping)[:1]})
+        for probe in probes:
+            try:
+                used = model_of(remap_curie_prefixes(first_input, probe)).record_set()
+            except Exception as e:  # noqa
+                used = ("raised", type(e).__name__)
+            try:
+                fresh = model_of(remap_curie_prefixes(make_base(base_idx), probe)).record_set()
+            except Exception as e:  # noqa
+                fresh = ("raised", type(e).__name__)
+            if ctx is not None:
+                ctx.count("second_calls_on_used_input")
+            if used != fresh:
+                fails.append(("result-depends-on-earlier-calls-with-the-same-input", f"{where}; then remap_curie_prefixes(same input, {probe}) gives {used if isinstance(used, tuple) else sorted(map(repr, used))}, on a fresh equal input {fresh if isinstance(fresh, tuple) else sorted(map(repr, fresh))}"))
+                return fails
     if ctx is not None:
         ctx.count("validated")
     return fails
